@@ -66,6 +66,14 @@ def _value_for(item_type, labels, tag, valuation):
         real = [x for x in labels if x not in ("NA", "")]
         if not real:
             return labels[0]
+        if valuation == "devices":
+            # the wiring that builds as many user devices as the table offers: output number n reads the n-th user-device
+            # label of its own list (pumps at both speeds, blower, waterfall, light); other items read their first label
+            dev = [x for x in real if any(x.startswith(d) for d in ("P1", "P2", "P3", "P4", "P5", "BL", "Waterfall", "LI"))]
+            digits = "".join(ch for ch in tag if ch.isdigit())
+            if dev and tag.startswith("Out"):
+                return dev[-(int(digits) if digits else 0) % len(dev)] if digits else dev[-1]
+            return real[0]
         if valuation == "first":
             return real[0]
         if valuation == "last":
@@ -283,7 +291,7 @@ def inventories(repo, T, valuation="mixed"):
     return res
 
 
-def out_of_list_states(repo, T, valuation="mixed"):
+def out_of_list_states(repo, T, valuation="mixed", unknown=True):
     """For the richest shipped (config, log) pair of every platform and both facades: every automation device the facade
     built is read again with each of its Enum items holding a byte OUTSIDE its label list (the accessor reads 'Unknown'):
     every read-only member (properties, __str__, __repr__) of the device is evaluated.
@@ -315,7 +323,8 @@ def out_of_list_states(repo, T, valuation="mixed"):
                 continue
             saved = [(a, a.attrs["value"]) for a in accs]
             for a in accs:
-                a.attrs["value"] = "Unknown"
+                if unknown:
+                    a.attrs["value"] = "Unknown"
             try:
                 key = it.getattr(d, "key")
                 members = [nm for nm, f in repo.all_methods(d.cls).items() if f.is_property] + ["__str__", "__repr__"]
